@@ -1060,6 +1060,31 @@ class SymPath(_PathBase):
         return self.prove(z3.Not(neg), label, **detail)
 
 
+class Probe(object):
+    """evaluate obligations without recording them: `prove` only notes whether the claim could fail on this path.
+    Used to restrict a harness to pre-states that satisfy another property's invariant (whose violations that
+    property's own check reports)."""
+
+    def __init__(self, E):
+        self._E = E
+        self.failed = False
+
+    def __getattr__(self, k):
+        return getattr(self._E, k)
+
+    def prove(self, cond, label, **detail):
+        c = zbool(cond)
+        if c is True:
+            return True
+        if c is False or self._E.feasible(z3.Not(c)):
+            self.failed = True
+            return False
+        return True
+
+    def fail(self, label, **detail):
+        self.failed = True
+
+
 def _dec_json(ds):
     return [list(d) if isinstance(d, tuple) else d for d in ds]
 
